@@ -654,8 +654,13 @@ pub fn overload_programs(max_ops: usize) -> Vec<Program> {
     }
     let mut out = Vec::new();
     let mut idx = 0;
-    for leave in [0usize, 1, 2] {
+    for (leave, exit_after_drain) in [(0usize, false), (1, false), (2, false), (0, true)] {
         for seq in &seqs {
+            // exiting right after the drain is only interesting when everything the program still
+            // holds was released during the episode (so that nothing else is sent afterwards)
+            if exit_after_drain && (!seq.contains(&E::FinishRoot) || seq.contains(&E::FinishChild) || seq.contains(&E::EndScope)) {
+                continue;
+            }
             idx += 1;
             let mut ops = vec![
                 Op::Warm,
@@ -673,6 +678,14 @@ pub fn overload_programs(max_ops: usize) -> Vec<Program> {
             let mut root_live = true;
             let mut child_live = true;
             let mut scope_open = true;
+            if exit_after_drain {
+                // release the child and the scope before the ring is filled
+                let pos = ops.iter().position(|o| matches!(o, Op::Fill { .. })).unwrap();
+                ops.insert(pos, finish(2));
+                ops.insert(pos, pop());
+                child_live = false;
+                scope_open = false;
+            }
             for e in seq {
                 match e {
                     E::FinishChild => {
@@ -699,10 +712,12 @@ pub fn overload_programs(max_ops: usize) -> Vec<Program> {
             }
             // after the collector's first cycle: a fresh trace, then release what is left
             ops.push(wait(50));
-            ops.push(root(5, "fresh", 0x93));
-            ops.push(child(6, "fc", 5));
-            ops.push(finish(6));
-            ops.push(finish(5));
+            if !exit_after_drain {
+                ops.push(root(5, "fresh", 0x93));
+                ops.push(child(6, "fc", 5));
+                ops.push(finish(6));
+                ops.push(finish(5));
+            }
             if scope_open {
                 ops.push(pop());
             }
@@ -712,7 +727,14 @@ pub fn overload_programs(max_ops: usize) -> Vec<Program> {
             if root_live {
                 ops.push(finish(0));
             }
-            ops.push(finish(9));
+            if exit_after_drain {
+                // the filler trace's root is finished during the episode too (its commit is parked),
+                // so that the thread really exits without sending anything after the drain
+                let pos = ops.iter().position(|o| matches!(o, Op::Wait(50))).unwrap();
+                ops.insert(pos, finish(9));
+            } else {
+                ops.push(finish(9));
+            }
             let mut p = Program::new(format!("C09-ring#{idx}")).worker("A", ops);
             p.actors.push(Actor {
                 name: "collector".into(),
@@ -1030,4 +1052,22 @@ pub fn multi_parent_attach_programs() -> Vec<Program> {
         }
     }
     out
+}
+
+/// C02: many spans on one thread and on two threads: ids stay non-zero and distinct (the bulk
+/// records are counted and their ids compared pairwise).
+pub fn many_ids_programs() -> Vec<Program> {
+    let mut one = vec![root(0, "r", 0x1D)];
+    for _ in 0..7 {
+        one.push(scope(0));
+        one.push(Op::FillLocalSpans { leave: 0 });
+        one.push(pop());
+    }
+    one.push(finish(0));
+    let two_a = vec![root(0, "r", 0x1D), sig(1), scope(0), Op::FillLocalSpans { leave: 5000 }, pop(), wait(2), finish(0)];
+    let two_b = vec![wait(1), scope(0), Op::FillLocalSpans { leave: 5000 }, pop(), sig(2)];
+    vec![
+        Program::new("C02-many-ids#1").worker("A", one).collector(1, true, 0),
+        Program::new("C02-many-ids#2").worker("A", two_a).worker("B", two_b).collector(1, true, 0),
+    ]
 }
